@@ -601,6 +601,12 @@ func (e *NodeEnv) projOut(m storage.Message) string {
 		if json.Unmarshal(m.Data, &l) == nil {
 			var es []string
 			for _, s := range l {
+				// the entries of a broadcast name the round by the identifier kept INSIDE the dump, which
+				// InitDump trims; every receiver overwrites it with the message's own round identifier.
+				// Compared up to that trimming.
+				if strings.TrimSpace(s.DKGRoundID) == strings.TrimSpace(m.DkgRoundID) {
+					s.DKGRoundID = m.DkgRoundID
+				}
 				es = append(es, projRsig(s))
 			}
 			sort.Strings(es)
